@@ -312,7 +312,7 @@ def run_a(ctx):
 
   @st.composite
   def case_st(draw):
-    cfg = draw(st.sampled_from(cfgs))
+    cfg = draw(G.cfg_strategy(cfgs))
     t = draw(G.tensor_strategy())
     fs = draw(st.lists(G.f_strategy(), min_size=1, max_size=3))
     return {"part": "A", "cfg": cfg, "xs": t["xs"], "shape": t["shape"],
@@ -555,7 +555,7 @@ def make_machine_b(ctx, cfgs):
       for sc, sig, d in self.sim.step(op):
         ctx.report(sc, sig, self.case(), d)
 
-    @initialize(cfg=st.sampled_from(cfgs), t=G.tensor_strategy(12),
+    @initialize(cfg=G.cfg_strategy(cfgs), t=G.tensor_strategy(12),
                 f0=G.f_strategy(), uv=st.booleans(), f0b=G.f_strategy(),
                 uvb=st.sampled_from([False, False, True]))
     def start(self, cfg, t, f0, uv, f0b, uvb):
